@@ -104,7 +104,90 @@ def build_shuffled(r, t, v, schema, explicit_defaults):
         d = derived_scalar(t, v, schema)
         if d is not None:
             return d
+    if r.random() < 0.3:
+        d = scalar_from_other_initialiser(r, t, v, schema)
+        if d is not None:
+            return d
     return gen.build_value(t, v, schema)
+
+
+def scalar_ways(t, v, schema):
+    """name -> thunk building the same abstract scalar through another initialiser the type documents (BIT STRING from a
+    Python int, a tuple of bits, 'B / 'H text, fromOctetString; OCTET STRING from a tuple of octets, hexValue; OID from
+    dotted text; INTEGER from text; BOOLEAN from a bool): the stored payload has another history (lazily computed
+    attributes not yet filled in)"""
+    k = gen.base_of(t)[0]
+    ways = {}
+    if k == 'bits':
+        bits = v[1]
+        ways['tuple'] = lambda: schema.clone(tuple(int(c) for c in bits))
+        if bits:
+            ways['bin-text'] = lambda: schema.clone("'%s'B" % bits)    # (clone(binValue=...) on a value object keeps the old value)
+            pad = (8 - len(bits) % 8) % 8
+            octs = int(bits + '0' * pad, 2).to_bytes((len(bits) + pad) // 8, 'big')
+            ways['octets'] = lambda: schema.clone(univ.BitString.fromOctetString(octs, padding=pad))
+        if bits and bits[0] == '1':
+            ways['int'] = lambda: schema.clone(int(bits, 2))
+            ways['int-object'] = lambda: schema.clone(univ.BitString(int(bits, 2)))
+        if bits and len(bits) % 4 == 0:
+            ways['hex-text'] = lambda: schema.clone("'%0*x'H" % (len(bits) // 4, int(bits, 2)))
+    elif k == 'str' and isinstance(v[1], bytes) and type(schema) is univ.OctetString and v[1]:
+        ways['tuple'] = lambda: schema.clone(tuple(v[1]))
+        ways['hex'] = lambda: schema.clone(univ.OctetString(hexValue=v[1].hex()))
+    elif k == 'oid':
+        ways['text'] = lambda: schema.clone('.'.join(str(a) for a in v[1]))
+    elif k == 'int' and abs(v[1]) < 10 ** 4000:
+        ways['text'] = lambda: schema.clone(str(v[1]))
+    elif k == 'bool':
+        ways['bool'] = lambda: schema.clone(bool(v[1]))
+    return ways
+
+
+def scalar_from_other_initialiser(r, t, v, schema):
+    ways = scalar_ways(t, v, schema)
+    if not ways:
+        return None
+    try:
+        return ways[r.choice(sorted(ways))]()
+    except error.PyAsn1Error:
+        return None
+
+
+def check_default_scalar_initialisers(rep):
+    """a DEFAULT member of scalar type set explicitly to its default through every initialiser: DER and CER leave it out
+    whatever the initialiser was, on the first encoding and on the second"""
+    grid = [('bits', '(bits 101)'), ('bits', '(bits 1)'), ('bits', '(bits 10100000)'), ('bits', '(bits 1111000010100101)'),
+            ('bits', '(bits 0110)'), ('(str 4)', '(s 6162)'), ('oid', '(oid 1 3 6 1)'), ('int', '(i 5)'), ('int', '(i -70000)'),
+            ('bool', '(b true)'), ('bool', '(b false)')]
+    for ts, ds in grid:
+        for holder in ('seq', 'set'):
+            t = sexp_types.ty_of_sexp(gen.parse_sexps('(%s (r (tag i c 0 int)) (d %s %s))' % (holder, ds, ts))[0])
+            schema = gen.build(t)
+            dv = gen.base_of(t)[1][1][1]
+            ft = gen.base_of(t)[1][1][2]
+            plain = schema.clone()
+            plain.clear()
+            plain[0] = 7
+            for cdc, mod in (('der', der_encoder), ('cer', cer_encoder)):
+                want = mod.encode(plain)
+                for name, thunk in sorted(scalar_ways(ft, dv, schema.componentType[1].asn1Object).items()):
+                    rep.evaluations += 1
+                    rep.count('default-initialisers')
+                    case = {'kind': 'default-initialiser', 'type': gen.ty_sexp(t), 'initialiser': name, 'codec': cdc}
+                    try:
+                        obj = schema.clone()
+                        obj.clear()
+                        obj[0] = 7
+                        obj[1] = thunk()
+                        first = mod.encode(obj)
+                        second = mod.encode(obj)
+                    except Exception as ex:  # noqa
+                        rep.fail('default-initialiser-' + codec.classify(ex), '%s via %s: %r' % (gen.ty_sexp(t), name, ex), case)
+                        continue
+                    if first != want or second != want:
+                        rep.fail('bytes-differ-%s-default-initialiser' % cdc,
+                                 '%s of %s with the DEFAULT member set to its default through the %s initialiser: %s, then %s; '
+                                 'member left out: %s' % (cdc.upper(), gen.ty_sexp(t), name, first.hex(), second.hex(), want.hex()), case)
 
 
 def derived_scalar(t, v, schema):
@@ -469,6 +552,8 @@ def run(rep, tier, seed):
                 'history pair' % max_len)
     rep.assumptions = ['decoding routes that do not round-trip (C01/C02 matters, e.g. finding E1) are skipped and counted',
                        'text codecs trusted; decimal REAL not generated']
+    rep.case('default initialisers', nontrivial=True)
+    check_default_scalar_initialisers(rep)
     for ts, vs in ROUTE_CORPUS:
         t = sexp_types.ty_of_sexp(gen.parse_sexps(ts)[0])
         v = gen.val_of_sexp(gen.parse_sexps(vs)[0])
